@@ -274,6 +274,8 @@ fn model_write(transparent: bool, bufsize: Option<u32>, ops: &[WOp], pool: &[u8]
                     flushz(&mut l, &mut pending_zeros);
                     exp.push(Some(0));
                 } else {
+                    // invalid values: deflateParams fails and the file enters an error state
+                    unsure = true;
                     exp.push(None);
                 }
             }
@@ -406,6 +408,9 @@ fn write_case(t: &mut Tape, ctx: &Ctx, o: &mut Outcome) {
         match exp[k] {
             Some(e) => {
                 if rs[k].ret != e {
+                    if std::env::var("VERIF_DEBUG").is_ok() && ng[k].ret != e {
+                        eprintln!("MODEL-DISAGREE write op {} {}: rs {} ng {} model {} ; {}", k, opd, rs[k].ret, ng[k].ret, e, desc);
+                    }
                     if ng[k].ret == e {
                         o.fail(format!("write/{}-return", opd.split('(').next().unwrap_or("op")), format!("operation {} {}: zlib-rs returned {}, model and zlib-ng say {}; {}", k, opd, rs[k].ret, e, desc));
                         return;
@@ -548,6 +553,8 @@ fn model_read(l: &[u8], direct: bool, bufsize: Option<u32>, ops: &[ROp]) -> Vec<
     let mut pb: Vec<u8> = Vec::new(); // push-back (last pushed first out)
     let mut seek_to: Option<i64> = None; // pending seek target beyond what we model eagerly
     let mut eof = false;
+    let mut fwd_pending = false; // a forward seek may still be pending inside the library (lazy skip)
+    let mut eof_known = true; // plain files: whether a seek clears the end-of-file indicator depends on internal state
     let mut unsure = false; // after something the model does not define (push-back capacity, ...)
     for op in ops {
         if unsure {
@@ -555,6 +562,12 @@ fn model_read(l: &[u8], direct: bool, bufsize: Option<u32>, ops: &[ROp]) -> Vec<
             continue;
         }
         // a pending seek is resolved by the next data operation (clamped at the end of the stream)
+        if matches!(op, ROp::Read(n) if *n > 0) || matches!(op, ROp::Getc | ROp::Rewind) {
+            eof_known = true;
+        }
+        if matches!(op, ROp::Read(n) if *n > 0) || matches!(op, ROp::Getc | ROp::Rewind | ROp::Gets(_) | ROp::FRead(..) | ROp::Ungetc(_)) {
+            fwd_pending = false;
+        }
         let resolve = |p: &mut usize, seek_to: &mut Option<i64>| {
             if let Some(t) = seek_to.take() {
                 *p = (t.max(0) as usize).min(l.len());
@@ -621,7 +634,7 @@ fn model_read(l: &[u8], direct: bool, bufsize: Option<u32>, ops: &[ROp]) -> Vec<
                 if pb.is_empty() && p >= 1 {
                     pb.push(*c as u8);
                     eof = false;
-                    exp.push(Some(Res { ret: (*c & 0xff) as i64, data: vec![] }));
+                    exp.push(Some(Res { ret: *c as i64, data: vec![] }));
                 } else {
                     unsure = true;
                     exp.push(None);
@@ -679,20 +692,57 @@ fn model_read(l: &[u8], direct: bool, bufsize: Option<u32>, ops: &[ROp]) -> Vec<
                     }
                 };
                 if target < 0 {
-                    exp.push(Some(Res { ret: -1, data: vec![] }));
+                    if fwd_pending || seek_to.is_some() {
+                        // a refused seek drops a forward seek that is still pending; how much of the earlier
+                        // forward seek was already carried out depends on the buffered output
+                        unsure = true;
+                        exp.push(None);
+                    } else {
+                        exp.push(Some(Res { ret: -1, data: vec![] }));
+                    }
                     continue;
                 }
-                pb.clear();
-                eof = false;
-                if target as usize <= l.len() {
+                seek_to = None;
+                if direct {
+                    eof_known = false;
+                }
+                if target < cur {
+                    eof = false; // backward: gzrewind clears the indicator; a forward seek leaves it alone
+                }
+                if target > cur || (target < cur && target > 0) {
+                    // forward: lazy skip; backward: rewind followed by a lazy skip to the target
+                    fwd_pending = true;
+                }
+                if direct && target as usize <= l.len() {
+                    // plain files are repositioned with lseek: buffered output incl. push-back is dropped
+                    pb.clear();
                     p = target as usize;
-                    seek_to = None;
+                } else if target >= cur {
+                    // forward: pushed-back characters are part of the buffered output and are skipped first
+                    let mut d = (target - cur) as usize;
+                    while d > 0 && !pb.is_empty() {
+                        pb.pop();
+                        d -= 1;
+                    }
+                    if p + d <= l.len() {
+                        p += d;
+                    } else if direct {
+                        // plain files: whether the position is clamped depends on internal state (lseek shortcut)
+                        unsure = true;
+                        exp.push(None);
+                        continue;
+                    } else {
+                        seek_to = Some(target);
+                    }
                 } else {
-                    seek_to = Some(target);
+                    // backward: rewind and skip; push-back is discarded
+                    pb.clear();
+                    p = target as usize;
                 }
                 exp.push(Some(Res { ret: target, data: vec![] }));
             }
             ROp::Rewind => {
+                eof_known = true;
                 p = 0;
                 pb.clear();
                 seek_to = None;
@@ -709,13 +759,18 @@ fn model_read(l: &[u8], direct: bool, bufsize: Option<u32>, ops: &[ROp]) -> Vec<
                 }
             }
             ROp::Eof => {
-                if seek_to.is_some() {
+                if seek_to.is_some() || !eof_known {
                     exp.push(None);
                 } else {
                     exp.push(Some(Res { ret: eof as i64, data: vec![] }));
                 }
             }
             ROp::Direct => {
+                if fwd_pending || seek_to.is_some() {
+                    // gzdirect may fill the buffer while a seek is still pending; gzgetc's fast path then serves
+                    // buffered bytes without carrying out the seek (zlib and zlib-ng alike): no opinion from here
+                    unsure = true;
+                }
                 exp.push(Some(Res { ret: direct as i64, data: vec![] }));
             }
         }
@@ -729,6 +784,7 @@ fn read_case(t: &mut Tape, ctx: &Ctx, o: &mut Outcome) {
     let mut file: Vec<u8> = Vec::new();
     let mut logical: Option<Vec<u8>> = Some(Vec::new());
     let mut direct = false;
+    let mut full_logical: Option<Vec<u8>> = None;
     let cname;
     let member = |t: &mut Tape| -> (Vec<u8>, Vec<u8>) {
         if t.bool() {
@@ -790,14 +846,15 @@ fn read_case(t: &mut Tape, ctx: &Ctx, o: &mut Outcome) {
         9 => {
             cname = "empty file";
             logical = Some(vec![]);
-            direct = false;
+            direct = true;
         }
         10 => {
             cname = "truncated gzip (model has no opinion)";
-            let (m, _) = member(t);
+            let (m, d) = member(t);
             let cut = if m.is_empty() { 0 } else { t.below(m.len()) };
             file = m[..cut].to_vec();
             logical = None;
+            full_logical = Some(d);
         }
         _ => {
             cname = "corrupted gzip (model has no opinion)";
@@ -865,15 +922,48 @@ fn read_case(t: &mut Tape, ctx: &Ctx, o: &mut Outcome) {
                         return;
                     }
                     o.class("model disagreement (zlib-ng also differs from the model)");
+                    if std::env::var("VERIF_DEBUG").is_ok() {
+                        eprintln!("MODEL-DISAGREE read op {} {}: rs ret {} len {} | ng ret {} len {} | model ret {} len {} ; {}", k, opd, rs[k].ret, rs[k].data.len(), ng[k].ret, ng[k].data.len(), e.ret, e.data.len(), desc);
+                    }
                     break;
                 }
             }
             None => {
+                if rs[k] != ng[k] && opd == "Gets(1)" {
+                    // zlib/zlib-ng return NULL, zlib-rs an empty string; the manual is silent; nothing is consumed
+                    o.class("gzgets(len 1): NULL vs empty string (not compared)");
+                    continue;
+                }
                 if rs[k] != ng[k] {
                     o.class("unarbitrated difference (model has no opinion)");
+                    if std::env::var("VERIF_DEBUG").is_ok() {
+                        eprintln!("UNARBITRATED read op {} {}: rs ret {} len {} | ng ret {} len {} ; {}", k, opd, rs[k].ret, rs[k].data.len(), ng[k].ret, ng[k].data.len(), desc);
+                    }
                     break;
                 }
             }
+        }
+    }
+    // truncated files: whatever sequential reads deliver (before any repositioning) must be a prefix of what the
+    // complete member encodes - never invented or reordered bytes
+    if let Some(full) = &full_logical {
+        let mut seq: Vec<u8> = Vec::new();
+        let base = if bufsize.is_some() { 1 } else { 0 };
+        for (k, op) in ops.iter().enumerate() {
+            match op {
+                ROp::Read(_) | ROp::FRead(..) => seq.extend_from_slice(&rs[base + k].data),
+                ROp::Getc => {
+                    if rs[base + k].ret >= 0 {
+                        seq.push(rs[base + k].ret as u8)
+                    }
+                }
+                ROp::Tell | ROp::Eof | ROp::Direct => {}
+                _ => break,
+            }
+        }
+        if !(seq.len() <= full.len() && full[..seq.len()] == seq[..]) {
+            o.fail("read/truncated-file-data", format!("sequential reads of a truncated gzip file returned {} bytes that are not a prefix of what the complete member encodes ({} bytes); {}", seq.len(), full.len(), desc));
+            return;
         }
     }
     if logical.is_some() && rs_close != ng_close && ng_close == 0 {
@@ -922,5 +1012,5 @@ pub fn case(tape: &[u8], ctx: &Ctx) -> Outcome {
 }
 
 pub fn property() -> Property {
-    Property { id: "C17", rule: RULE, phases: vec![Phase::Prop { name: "gz file operation sequences", f: case, quick: 60_000, thorough: 2_000_000, max_tape: 300 }] }
+    Property { id: "C17", rule: RULE, phases: vec![Phase::Prop { name: "gz file operation sequences", f: case, quick: 400_000, thorough: 6_000_000, max_tape: 300 }] }
 }
